@@ -608,6 +608,40 @@ pub fn recover_replay(a: &Args) -> Report {
 
 /// C16: everything in a share except the point is a function of (t, M, R, T).
 fn c16_determinism(cfg: &Cfg, clients: &[RealClient], oprf: &OprfServer, val: &Valuation, rep: &mut Report) {
+  // the authenticated transcript is an input like threshold, message and coins: a sharing under a
+  // custom transcript dealt IMMEDIATELY after (and before) the default-transcript sharing of the
+  // same (t, M, R) on this thread must still differ from it in the tag and be refused by recover()
+  for c in clients.iter().filter(|c| c.cfg.src == "adss" && c.cfg.t >= 1) {
+    let (t, m, r) = (c.cfg.t, c.cfg.m.clone(), c.cfg.e.clone());
+    let deal = |custom: bool| -> Option<Vec<u8>> {
+      let tr = if custom { Some(custom_transcript()) } else { None };
+      guard(|| Commune::new(t, m.clone(), r.clone(), tr).share().ok().map(|s| s.to_bytes())).ok().flatten()
+    };
+    for order in [[false, true, false, true], [true, false, true, false]] {
+      let dealt: Vec<(bool, Vec<u8>)> = order.iter().filter_map(|cu| deal(*cu).map(|b| (*cu, b))).collect();
+      rep.evaluations += dealt.len() as u64;
+      let tag_of = |b: &Vec<u8>| layout(b).map(|l| b[l.j.0..l.j.1].to_vec());
+      let dflt: Vec<&Vec<u8>> = dealt.iter().filter(|(cu, _)| !*cu).map(|(_, b)| b).collect();
+      let cust: Vec<&Vec<u8>> = dealt.iter().filter(|(cu, _)| *cu).map(|(_, b)| b).collect();
+      if let (Some(d), Some(cu)) = (dflt.first(), cust.first()) {
+        if tag_of(d) == tag_of(cu) {
+          rep.violation("C16", "Commune::share", "transcript-not-bound:same-tag",
+            "a sharing under a custom transcript carries the tag of the default-transcript sharing dealt just before / after it".into(),
+            json!({"valuation": val.name, "threshold": t, "order": order}));
+        }
+      }
+      // t copies' worth of custom-transcript shares (two dealt; enough for t <= 2) never recover
+      if cust.len() >= t as usize {
+        let shs: Vec<Share> = cust.iter().filter_map(|b| Share::from_bytes(b)).collect();
+        if matches!(guard(|| share_recover(&shs[..t as usize]).is_ok()), Guard::Done(true)) {
+          rep.violation("C16", "adss::recover", "transcript-not-bound:custom-shares-recover",
+            "shares dealt under a custom transcript were accepted by recover()".into(),
+            json!({"valuation": val.name, "threshold": t, "order": order}));
+        }
+      }
+      rep.nontrivial(format!("transcript-history:{}:{t}:{order:?}", val.name));
+    }
+  }
   for (ci, c) in clients.iter().enumerate() {
     let again = make_client(
       ClientCfg { m: c.cfg.m.clone(), e: c.cfg.e.clone(), t: c.cfg.t, aux: c.cfg.aux.clone(), src: c.cfg.src.clone() },
